@@ -788,6 +788,7 @@ def run(chk, repo):
         # the step written in line:  last_power, result = next(pairs) ; for power, coeff in pairs: <step>
         for lp_ in [n for n in ast.walk(call) if isinstance(n, ast.For) and isinstance(n.target, ast.Tuple) and len(n.target.elts) == 2]:
             stores_ = {unparse(t_) for s_ in ast.walk(lp_) if isinstance(s_, ast.Assign) for t_ in s_.targets}
+            stores_ |= {unparse(s_.target) for s_ in ast.walk(lp_) if isinstance(s_, ast.AugAssign)}
             if {"result", "last_power"} <= stores_:
                 loop_horner = lp_
         if loop_horner is not None:
@@ -801,7 +802,19 @@ def run(chk, repo):
                     return n
             src_ = "def horner_step(old, new):\n    opower, oresult = old\n    npower, ncoeff = new\n    pass\n    return (opower, oresult)\n"
             synth = ast.parse(src_).body[0]
-            bodyc = [_Ren().visit(ast.parse(unparse(s_)).body[0]) for s_ in loop_horner.body]
+            def _plain(s_):
+                # x op= e  read as  x = x op e
+                s_ = ast.parse(unparse(s_)).body[0]
+                for blk_ in [getattr(n_, f_) for n_ in ast.walk(s_) for f_ in ("body", "orelse") if isinstance(getattr(n_, f_, None), list)]:
+                    for k_, q_ in enumerate(blk_):
+                        if isinstance(q_, ast.AugAssign) and isinstance(q_.target, ast.Name):
+                            blk_[k_] = ast.Assign(targets=[ast.Name(id=q_.target.id, ctx=ast.Store())], value=ast.BinOp(
+                                left=ast.Name(id=q_.target.id, ctx=ast.Load()), op=q_.op, right=q_.value), lineno=q_.lineno)
+                if isinstance(s_, ast.AugAssign) and isinstance(s_.target, ast.Name):
+                    s_ = ast.Assign(targets=[ast.Name(id=s_.target.id, ctx=ast.Store())], value=ast.BinOp(
+                        left=ast.Name(id=s_.target.id, ctx=ast.Load()), op=s_.op, right=s_.value), lineno=s_.lineno)
+                return ast.fix_missing_locations(s_)
+            bodyc = [_Ren().visit(_plain(s_)) for s_ in loop_horner.body]
             synth.body = synth.body[:2] + bodyc + synth.body[-1:]
             ast.fix_missing_locations(synth)
             for n_ in ast.walk(synth):
